@@ -1,8 +1,15 @@
 package optimizer
 
 import (
+	"reflect"
+
 	. "github.com/antonmedv/expr/ast"
 	"github.com/antonmedv/expr/conf"
+)
+
+var (
+	integerType = reflect.TypeOf(0)
+	stringType  = reflect.TypeOf("")
 )
 
 func Optimize(node *Node, config *conf.Config) error {
